@@ -371,6 +371,26 @@ func Bin(op Op, a, b *Term) *Term {
 			return a
 		}
 	}
+	// x + (y - x) = y ; (x + y) - x = y ; x - x = 0 (clock arithmetic)
+	if op == OpAdd {
+		if b.Op == OpSub && b.Args[1] == a {
+			return b.Args[0]
+		}
+		if a.Op == OpSub && a.Args[1] == b {
+			return a.Args[0]
+		}
+	}
+	if op == OpSub {
+		if a == b {
+			return BV(w, 0)
+		}
+		if a.Op == OpAdd && a.Args[0] == b {
+			return a.Args[1]
+		}
+		if a.Op == OpAdd && a.Args[1] == b {
+			return a.Args[0]
+		}
+	}
 	switch op {
 	case OpAdd, OpBOr, OpBXor:
 		if a.Op == OpConst && a.Val == 0 {
